@@ -43,6 +43,8 @@ fn main() {
         "selftest" => selftest::run(&cfg),
         "c12" => c12::run(&cfg),
         "c11" => c11::run(&cfg),
+        "c02" => spl::run_c02(&cfg),
+        "c03" => spl::run_c03(&cfg),
         "c01" => lin::run_c01(&cfg),
         "c04" => lin::run_c04(&cfg),
         "c06" => lin::run_c06(&cfg),
